@@ -4,6 +4,7 @@ import (
 	"context"
 	"fmt"
 	"os"
+	"strconv"
 	"os/exec"
 	"path/filepath"
 	"regexp"
@@ -117,7 +118,7 @@ func (e *Engine) Discharge(obls []*Obligation, outDir string, timeout int, par i
 			defer func() { <-sem }()
 			file := filepath.Join(outDir, o.fileName())
 			txt := e.queryText(o, false)
-			if len(txt) > 600000 {
+			if len(txt) > maxQueryBytes() { // default 1000000; VERIF_MAXQ overrides (w-c05)
 				o.Status, o.Output = "toolarge", fmt.Sprintf("%d bytes of SMT-LIB", len(txt))
 				return
 			}
@@ -268,4 +269,12 @@ func (e *Engine) trySliced(o *Obligation, outDir string, timeout int) (solveResu
 		}
 	}
 	return solveResult{}, false
+}
+
+// maxQueryBytes: size limit of one SMT-LIB query (w-c05: made configurable, default unchanged).
+func maxQueryBytes() int {
+	if v, err := strconv.Atoi(os.Getenv("VERIF_MAXQ")); err == nil && v > 0 {
+		return v
+	}
+	return 1000000 // was 600000: (*rel.SeqArrowExpr).Eval (18 returns) needs ~620 KB per postcondition query
 }
